@@ -284,3 +284,10 @@ Print Assumptions C08_evasion_nodup.
 Print Assumptions C08_evasion_complete.
 Print Assumptions C08_evasion_complete_engine.
 Print Assumptions C08_has_legal_move_exact.
+
+(* tie to the source: on-demand generation starts from a reset generator (od_start_ok) in both move loops - the
+   generator of the ply is reset once, after IID and before the loop, and never inside it
+   (gen/Sites_gen.v is regenerated on every run by tools/sites.py) *)
+From FG.gen Require Import Sites_gen.
+Theorem C08_sites_recognised : forallb (fun b => b) sites_C08 = true.
+Proof. vm_compute. reflexivity. Qed.
